@@ -422,7 +422,7 @@ func (a *sideEffectActor) Deliver(c context.Context, outboxIRI *url.URL, activit
 	if err != nil {
 		return err
 	}
-	return a.deliverToRecipients(c, outboxIRI, activity, recipients)
+	return a.deliverSerialized(c, outboxIRI, activity, recipients, true)
 }
 
 // WrapInCreate wraps an object with a Create activity.
@@ -445,9 +445,20 @@ func (a *sideEffectActor) WrapInCreate(c context.Context, obj vocab.Type, outbox
 // deliverToRecipients will take a prepared Activity and send it to specific
 // recipients on behalf of an actor.
 func (a *sideEffectActor) deliverToRecipients(c context.Context, boxIRI *url.URL, activity Activity, recipients []*url.URL) error {
+	return a.deliverSerialized(c, boxIRI, activity, recipients, false)
+}
+
+// deliverSerialized serializes the Activity and sends it. An activity of this
+// server's own ('own' is true) also has the 'bto' and 'bcc' members removed
+// that only exist in the serialized form: those of embedded values whose type
+// has no such property or is not known.
+func (a *sideEffectActor) deliverSerialized(c context.Context, boxIRI *url.URL, activity Activity, recipients []*url.URL, own bool) error {
 	m, err := streams.Serialize(activity)
 	if err != nil {
 		return err
+	}
+	if own {
+		stripHiddenRecipientsSerialized(m, false)
 	}
 	b, err := json.Marshal(m)
 	if err != nil {
